@@ -2,6 +2,7 @@ package main
 
 import (
 	"fmt"
+	"sort"
 	"strings"
 
 	"golang.org/x/text/unicode/norm"
@@ -151,6 +152,28 @@ func propC02(c *Ctx) {
 				if e := c.entropyForLast(n, v); e != nil {
 					c.chk("word-at-last-position", l, c.specSentence(l, e))
 				}
+			}
+		}
+	}
+	// sentences made of the longest words of each list (by code points after NFKD), at 21 and 24 words:
+	// a length-based shortcut or buffer bound shows here and nowhere in random sampling
+	for li := range langVals {
+		l := int64(langVals[li])
+		words := c.canonWords(l)
+		idx := make([]int, 2048)
+		for i := range idx {
+			idx[i] = i
+		}
+		sort.SliceStable(idx, func(a, b int) bool { return len([]rune(words[idx[a]])) > len([]rune(words[idx[b]])) })
+		for _, n := range []int{28, 32, 16} {
+			for rep := 0; rep < 2; rep++ {
+				e := make([]byte, n)
+				for p := 0; p < n*3/4; p++ {
+					setGroup(e, p, idx[c.rng.Intn(6)])
+				}
+				s := c.specSentence(l, e)
+				c.chk("longest-words", l, s)
+				c.chk("longest-words-nfc", l, norm.NFC.String(s))
 			}
 		}
 	}
